@@ -14,6 +14,10 @@ with the answer of the same call on a *fresh copy* (for `next(g)`: a fresh copy 
 kind of generator is opened and advanced the same number of times).  After the history every
 populated cache level is queried once more and compared with a fresh copy.
 
+The NFA half (memo of `_get_lambda_closures`): histories of accepts_input, read_input_stepwise, ==,
+DFA.from_nfa, eliminate_lambda, validate on one NFA object, same fresh-copy oracle, replayed by the
+Lean machine `nstep` (NHISTORY command), memoised closure table compared with a fresh one.
+
 Correspondence: the whole history is replayed by the Lean state machine `step` (HISTORY command);
 answers are compared, the content of every populated level of `_count_cache` / `_word_cache` is
 compared with the model's tables (the invariant `CacheInv` of Props/C20.lean, checked on the real
@@ -31,7 +35,7 @@ from automata.fa.dfa import DFA
 from harness import gen
 from harness import dfa_query_lib as L
 from harness.common import guarded as case_guard
-from harness.common import Ctx, InfraError, Names, Toks, call, dfa_canon, dfa_plain, enc_dfa, enc_word, sym_names, toks
+from harness.common import Ctx, InfraError, Names, Toks, call, dfa_canon, dfa_plain, enc_dfa, enc_nfa, enc_word, sym_names, toks
 from harness.ops import C14 as S
 
 LEVEL = "proof"
@@ -51,7 +55,8 @@ ASSUMPTIONS = [
     "modelled as far as they touch the instance (the `_get_digraph` memo), the rest of their body is an arbitrary "
     "function of the definition and the graph object",
     "a key callable is a pure function at the moment of the call (the model takes its values on the alphabet at that "
-    "moment); the NFA half (lambda-closure memo) has no Lean model: sampled against fresh copies only",
+    "moment); NFA half: accepts_input / read_input_stepwise are modelled exactly over the memoised closure table, "
+    "==, DFA.from_nfa, eliminate_lambda only as far as they fetch that table (their answers are sampled against fresh copies)",
 ]
 EXPLANATION = ("Theorem C20_history: for every DFA and every finite history the cached instance `step` returns the "
                "answers of the stateless `stepPure`; this run ties `step` to the code by differential execution of "
@@ -650,6 +655,18 @@ def corpus():
                  dict(q="GO", op="minify_keep"), dict(q="NX", h=0), dict(q="NX", h=0), dict(q="GO", op="to_partial_keep"), dict(q="CARD")]
 
 
+def nfa_corpus():
+    from automata.fa.nfa import NFA
+    n = NFA(states={0, 1, 2}, input_symbols={"a", "b"},
+            transitions={0: {"": {1}, "a": {0}}, 1: {"b": {2}, "": {0}}, 2: {"a": {2}, "": {2}}},
+            initial_state=0, final_states={2})
+    other = NFA(states={0, 1}, input_symbols={"a", "b"}, transitions={0: {"a": {0}, "b": {1}}, 1: {"a": {1}}},
+                initial_state=0, final_states={1})
+    yield n, other, [dict(q="EQ"), dict(q="A", w="ab"), dict(q="READ", w="aba"), dict(q="DET"), dict(q="A", w="ba"),
+                     dict(q="ELIM", ws=["", "b", "ab", "ba"]), dict(q="READ", w="bb"), dict(q="A", w="ab"), dict(q="EQ")]
+    yield n, n.copy(), [dict(q="READ", w=""), dict(q="VAL"), dict(q="A", w=""), dict(q="A", w="b#"), dict(q="EQ")]
+
+
 def run(ctx: Ctx):
     rng = ctx.rng
     for d, hist in corpus():
@@ -681,13 +698,29 @@ def run(ctx: Ctx):
         ctx.stat(f"kind:{kind}")
         hist, kmax = rand_history(rng, d, rng.choice([5, 10, 20, 30, 30]))
         run_history(ctx, d, other_for(rng, d), hist, "random", kmax)
-    # ---- NFA side: fresh-copy oracle only
-    for _ in range(ctx.budget(250, 6000)):
+    # ---- NFA side (lambda-closure memo): fresh-copy oracle + NHISTORY correspondence
+    for n, other, hist in nfa_corpus():
+        run_nfa_history(ctx, n, other, hist, "corpus")
+    for _ in range(ctx.budget(300, 6000)):
         nfa_history(ctx, rng)
 
 
-# ------------------------------------------------------------------ NFA side (oracle only, no model)
-def nfa_answer(n, other, q):
+# ------------------------------------------------------------------ NFA side (NHISTORY: the lambda-closure memo)
+NFA_VIA = ["EQ", "DET", "ELIM"]     # read `_get_lambda_closures()` through the memo; opaque in the model
+
+
+def nfa_read(n, w, st=None):
+    """read_input_stepwise consumed to its end: (configurations, terminating exception class)."""
+    out = []
+    try:
+        for c in n.read_input_stepwise(w):
+            out.append(sorted(st(q) for q in c) if st else sorted(map(repr, c)))
+        return (out, None)
+    except Exception as e:  # noqa: BLE001
+        return (out, type(e).__name__)
+
+
+def nfa_answer(n, other, q, st=None):
     k = q["q"]
     if k == "A":
         return call(lambda: n.accepts_input(q["w"]))
@@ -698,7 +731,9 @@ def nfa_answer(n, other, q):
     if k == "ELIM":
         return call(lambda: sorted(w for w in q["ws"] if n.eliminate_lambda().accepts_input(w)))
     if k == "READ":
-        return call(lambda: [sorted(map(repr, c)) for c in n.read_input_stepwise(q["w"], ignore_rejection=True)])
+        return ("ok", nfa_read(n, q["w"], st))
+    if k == "VAL":
+        return call(lambda: n.validate())
     raise InfraError(f"unknown NFA query {q}")
 
 
@@ -708,35 +743,109 @@ def L_dfa_sig(d: DFA):
     return [w for w in gen.words_upto(sy, 4 if len(sy) <= 2 else 3) if d.accepts_input(w)]
 
 
-def nfa_history(ctx: Ctx, rng):
-    """The NFA half of the property (cached lambda closures): every answer on a long-lived NFA
-    must equal the answer on a fresh copy.  No Lean model here — sampled only."""
-    n = gen.rand_nfa(rng, 5)
+def nfa_memo(n):
+    name = "_get_lambda_closures"
+    return int(name in n.__dict__ and n.__dict__[name].cache_info().currsize > 0)
+
+
+def enc_nquery(sy, q):
+    k = q["q"]
+    if k == "A":
+        return toks("A", enc_word(sy, q["w"]))
+    if k == "READ":
+        return toks("RD", enc_word(sy, q["w"]))
+    if k in NFA_VIA:
+        return toks("VC", NFA_VIA.index(k))
+    return toks("OT", 0)
+
+
+def parse_nanswer(text: str):
+    t = Toks(text)
+    k = t.next()
+    if k == "bool":
+        return ("ok", bool(t.int()))
+    if k == "exn":
+        return ("err", t.next())
+    if k == "configs":
+        cs = t.many(lambda: sorted(t.ints()))
+        e = t.next()
+        return ("ok", (cs, None if e == "-" else e))
+    if k == "opaque":
+        return ("opaque",)
+    raise InfraError(f"cannot parse NFA model answer {text!r}")
+
+
+def rand_nfa_history(rng, n):
     sy = sorted(n.input_symbols)
-    other = rng.choice([n.copy(), gen.rand_nfa(rng, 4, alphabet=sy)])
-    inst = n.copy()
     hist = []
     for _ in range(rng.choice([4, 8, 12])):
         r = rng.random()
-        if r < 0.5:
-            hist.append(dict(q="A", w=gen.rand_word(rng, sy, 6)))
+        w = gen.rand_word(rng, sy, 6)
+        if rng.random() < 0.05:
+            w += gen.foreign_symbol(n.input_symbols)
+        if r < 0.45:
+            hist.append(dict(q="A", w=w))
         elif r < 0.65:
-            hist.append(dict(q="READ", w=gen.rand_word(rng, sy, 5)))
-        elif r < 0.8:
+            hist.append(dict(q="READ", w=w[:5]))
+        elif r < 0.77:
             hist.append(dict(q="EQ"))
-        elif r < 0.9:
+        elif r < 0.86:
             hist.append(dict(q="DET"))
-        else:
+        elif r < 0.95:
             hist.append(dict(q="ELIM", ws=[gen.rand_word(rng, sy, 5) for _ in range(4)]))
+        else:
+            hist.append(dict(q="VAL"))
+    return hist
+
+
+@case_guard
+def run_nfa_history(ctx: Ctx, n, other, hist, origin: str):
+    """The NFA half of the property (cached lambda closures): every answer on a long-lived NFA must
+    equal the answer on a fresh copy (property, independent of the model) and the answer of the
+    Lean instance machine `nstep` (NHISTORY); the memoised closure table of the real object must
+    stay equal to a fresh one."""
+    from automata.fa.nfa import NFA
+    enc, st, sy = enc_nfa(n)
+    inst = n.copy()
+    real, memos, bad = [], [], []
+    fresh_table = None
     for i, q in enumerate(hist):
-        a = nfa_answer(inst, other, q)
-        f = nfa_answer(n.copy(), other, q)
+        a = nfa_answer(inst, other, q, st)
+        f = nfa_answer(n.copy(), other, q, st)
+        real.append(a)
+        memos.append(nfa_memo(inst))
         ctx.case(None)
         ctx.stat(f"nfa_q:{q['q']}")
         if a != f:
-            what = (f"NFA call #{i} {q} after {i} earlier calls answered {str(a)[:120]}; "
-                    f"a fresh copy answers {str(f)[:120]}")
-            ctx.prop_fail(what, dict(kind="nfa", automaton=repr(n), other=repr(other), history=hist[: i + 1], what=what), None)
+            bad.append((i, f"NFA call #{i} {q} after {i} earlier calls answered {str(a)[:120]}; "
+                           f"a fresh copy answers {str(f)[:120]}"))
+        if memos[-1]:
+            if fresh_table is None:
+                c = n.copy()          # keep the receiver referenced (cached_method holds it weakly)
+                fresh_table = dict(c._get_lambda_closures())
+            if dict(inst._get_lambda_closures()) != fresh_table:
+                ctx.corr_diff("NHISTORY closure memo content", dict(automaton=repr(n), history=hist[: i + 1]),
+                              repr(dict(inst._get_lambda_closures()))[:300], repr(fresh_table)[:300])
+    ctx.case((enc, json.dumps(hist, sort_keys=True)) if len(hist) >= 2 and n.final_states else None)
+    ctx.stat(f"nfa_origin:{origin}")
+    for i, what in bad:
+        ctx.prop_fail(what, dict(kind="nfa", automaton=repr(n), other=repr(other), history=hist[: i + 1], what=what), None)
+    line = ctx.driver(L.DRV).ask(toks("NHISTORY", enc, len(hist), [enc_nquery(sy, q) for q in hist]))
+    for i, (q, a, mm, part) in enumerate(zip(hist, real, memos, line.split(" | ") if hist else [])):
+        ans, memo, same = part.split(" ; ")
+        m = parse_nanswer(ans)
+        if same.strip() != "1":
+            ctx.corr_diff("NHISTORY nstep≠nstepPure (model theorem violated at run time)", dict(automaton=repr(n), history=hist[: i + 1]), a, ans)
+        if m != ("opaque",) and m != a and not bad:
+            ctx.corr_diff("NHISTORY answer", dict(automaton=repr(n), history=hist[: i + 1], index=i), a, m)
+        ctx.stat("nfa_snapshot:memo_flag_equal" if int(memo) == mm else "nfa_snapshot:memo_flag_differs_from_model")
+
+
+def nfa_history(ctx: Ctx, rng):
+    n = gen.rand_nfa(rng, 5)
+    sy = sorted(n.input_symbols)
+    other = rng.choice([n.copy(), gen.rand_nfa(rng, 4, alphabet=sy)])
+    run_nfa_history(ctx, n, other, rand_nfa_history(rng, n), "random")
 
 
 def replay(ctx: Ctx, path: str) -> int:
@@ -747,12 +856,7 @@ def replay(ctx: Ctx, path: str) -> int:
     d = eval(rp["automaton"], env)
     other = eval(rp["other"], env)
     if rp.get("kind") == "nfa":
-        inst = d.copy()
-        for i, q in enumerate(rp["history"]):
-            a = nfa_answer(inst, other, q)
-            f = nfa_answer(d.copy(), other, q)
-            if a != f:
-                ctx.prop_fail(f"NFA call #{i} {q}: {str(a)[:100]} vs fresh {str(f)[:100]}", rp, None)
+        run_nfa_history(ctx, d, other, rp["history"], "replay")
     else:
         run_history(ctx, d, other, rp["history"], "replay", 8)
     if ctx.prop_fails:
